@@ -33,7 +33,7 @@ import subprocess
 import sys
 import threading
 
-from .. import build, cref, hist, pool
+from .. import build, cref, hist
 from ..build import InfraError
 
 ID = "C36"
@@ -189,6 +189,9 @@ class Sys(object):
         self.nt = nt = int(cfg.get("nt", NT))
         self.dry = bool(cfg.get("dry"))
         self.calls, self.pyops = FAMILIES[self.fam]
+        self.maxd = cfg.get("depth")        # own depth bound, for families explored together with deeper ones
+        self.nops = 0
+        self.cfg = {k: v for k, v in cfg.items() if k != "dry"}
         if not self.dry:
             lib = _W["lib"]
             # a previous history (possibly abandoned half-way by the explorer) may have left threads running,
@@ -219,6 +222,8 @@ class Sys(object):
     def enabled(self):
         ops = []
         nt = self.nt
+        if self.maxd is not None and self.nops >= self.maxd:
+            return ops
         free = [i for i in range(nt) if not self.alive[i]]
         if free:
             ops.append(("spawn",))
@@ -263,6 +268,13 @@ class Sys(object):
         return None
 
     def apply(self, op):
+        self.nops += 1
+        bad = self._apply(op)
+        if bad and self.cfg:
+            bad["cfg"] = self.cfg
+        return bad
+
+    def _apply(self, op):
         k = op[0]
         dry = self.dry
         if not dry:
@@ -399,9 +411,9 @@ class Sys(object):
         lib = _W["lib"]
         for i in range(self.nt):
             if self.alive[i] and self.inside[i]:
-                bad = self.apply(("leave", i))
+                bad = self._apply(("leave", i))
                 if bad:
-                    return bad
+                    return dict(bad, cfg=self.cfg) if self.cfg else bad
         for i in range(self.nt):
             if self.alive[i]:
                 lib.ft_exit(i)
@@ -412,7 +424,8 @@ class Sys(object):
         n_mid = tstate_count()
         lib.ft_exit(HELPER)
         if n_mid != self.base + 1:
-            return {"kind": "thread-state-leak", "count": n_mid, "expected": self.base + 1}
+            bad = {"kind": "thread-state-leak", "count": n_mid, "expected": self.base + 1}
+            return dict(bad, cfg=self.cfg) if self.cfg else bad
         return None
 
 
@@ -441,21 +454,34 @@ def ending_prefixes(nt, depth):
     return [list(h) for _, h in sorted(reps.items(), key=lambda kv: (len(kv[1]), kv[1]))]
 
 
-def run_endings(specs):
-    """Run `ending` cases: one helper interpreter (which never runs a callback itself) forks one case process
-    per spec from its top level.  Returns [(verdict-dict-or-None, raw observation)] in the order of specs."""
+def start_endings(specs):
+    """Start `ending` cases: one helper interpreter (which never runs a callback itself) forks one case process
+    per spec from its top level."""
     job = {"paths": _W["paths"], "specs": specs}
-    p = subprocess.run([sys.executable, "-m", "vlib.props._c36_end", json.dumps(job)],
-                       stdout=subprocess.PIPE, stderr=subprocess.PIPE, text=True, timeout=3000)
+    return subprocess.Popen([sys.executable, "-m", "vlib.props._c36_end", json.dumps(job)],
+                            stdout=subprocess.PIPE, stderr=subprocess.PIPE, text=True)
+
+
+def collect_endings(proc, specs):
+    """-> [(verdict-dict-or-None, raw observation)] in the order of specs."""
+    try:
+        out, err = proc.communicate(timeout=3000)
+    except subprocess.TimeoutExpired:
+        proc.kill()
+        raise InfraError("ending helper timed out")
     got = {}
-    for line in p.stdout.splitlines():
+    for line in out.splitlines():
         if line.startswith("C36END "):
             _, k, js = line.split(" ", 2)
             got[int(k)] = json.loads(js)
-    if p.returncode != 0 or len(got) != len(specs):
+    if proc.returncode != 0 or len(got) != len(specs):
         raise InfraError("ending helper failed (status %r, %d of %d cases):\n%s"
-                         % (p.returncode, len(got), len(specs), p.stderr[-3000:]))
+                         % (proc.returncode, len(got), len(specs), err[-3000:]))
     return [(judge_ending(spec, got[k]), got[k]) for k, spec in enumerate(specs)]
+
+
+def run_endings(specs):
+    return collect_endings(start_endings(specs), specs)
 
 
 def judge_ending(spec, obs):
@@ -486,36 +512,62 @@ def judge_ending(spec, obs):
 # ---- driver ---------------------------------------------------------------------------------------------------
 
 def _plan(quick):
-    """(label, cfg, depth, d0, split) of every E2 family of this tier."""
+    """Groups (depth, d0, split, [(label, cfg)]) of E2 families; the families of one group share one pool run.
+    A group of several families is explored without merging (d0 == depth); a family with a smaller depth of
+    its own carries it in cfg["depth"]."""
     if quick:
         return [
-            ("base", {}, 6, 5, 2),
-            ("extern", {"fam": "extern", "nt": 2}, 5, 5, 3),
-            ("gstate", {"fam": "gstate", "nt": 2}, 5, 5, 3),
-            ("park", {"fam": "parkq", "nt": 2}, 6, 6, 3),
+            (6, 5, 2, [("base", {})]),
+            (6, 6, 3, [("extern", {"fam": "extern", "nt": 2, "depth": 5}),
+                       ("gstate", {"fam": "gstate", "nt": 2, "depth": 5}),
+                       ("park", {"fam": "parkq", "nt": 2})]),
         ]
     return [
-        ("base", {}, 8, 6, 2),
-        ("extern", {"fam": "extern", "nt": 3}, 6, 5, 3),
-        ("gstate", {"fam": "gstatex", "nt": 3}, 6, 4, 3),
-        ("park", {"fam": "park", "nt": 3}, 7, 4, 2),
-        ("all", {"fam": "all", "nt": 3}, 5, 3, 2),
+        (8, 6, 2, [("base", {})]),
+        (6, 5, 3, [("extern", {"fam": "extern", "nt": 3})]),
+        (6, 4, 3, [("gstate", {"fam": "gstatex", "nt": 3})]),
+        (7, 4, 2, [("park", {"fam": "park", "nt": 3})]),
+        (5, 3, 2, [("all", {"fam": "all", "nt": 3})]),
     ]
+
+
+def _label_of(cfg, members):
+    for label, c in members:
+        if c == cfg:
+            return label
+    return "base"
 
 
 def run(ctx):
     setup()
     base = tstate_count()
+    # --opt only=extern,ending : run a subset of the families (for experiments; recorded in the evidence)
+    only = [x for x in getattr(ctx, "opts", {}).get("only", "").split(",") if x]
+    # the `ending` family runs in interpreters of its own: start them now, collect them at the end
+    nt_e, depth_e = (2, 5) if ctx.quick else (3, 6)
+    prefixes = ending_prefixes(nt_e, depth_e)
+    specs = [{"cfg": {"fam": "end", "nt": nt_e}, "history": h, "how": how} for h in prefixes for how in HOWS]
+    if only and "ending" not in only:
+        prefixes, specs = [], []
+    nz = max(1, min(8, len(specs) // 4))              # helper interpreters; each forks its cases one by one
+    chunks = [c for c in (specs[i::nz] for i in range(nz)) if c]
+    procs = [start_endings(c) for c in chunks]
     # leave the process in a known state: the closing sequence leaves exactly one zombie behind,
     # which the first callback of the next history reclaims; Sys() measures its base afterwards.
     tot = dict(states=0, transitions=0, merged=0, closed=0, max_depth=0)
     fams = {}
-    for label, cfg, depth, d0, split in _plan(ctx.quick):
-        st, crashes = hist.run_parallel(Sys, [cfg], depth, d0, split=split)
+    for depth, d0, split, members in _plan(ctx.quick):
+        if only:
+            members = [m for m in members if m[0] in only]
+            if not members:
+                continue
+        st, crashes = hist.run_parallel(Sys, [c for _, c in members], depth, d0, split=split)
         for item, cr, last in crashes:
-            ctx.violation({"kind": "crash", "family": label},
-                          {"cfg": cfg, "prefix": item[1], "last_history": last, "how": cr.describe()})
+            ctx.violation({"kind": "crash", "family": _label_of(item[0], members)},
+                          {"cfg": item[0], "prefix": item[1], "last_history": last, "how": cr.describe()})
         for h, info in st.violations:
+            cfg = info.get("cfg") or {}
+            label = _label_of(cfg, members)
             sig = {"kind": info.get("kind")}
             if label != "base":
                 sig["family"] = label
@@ -525,31 +577,41 @@ def run(ctx):
             ctx.violation(sig, {"cfg": cfg, "history": h, "info": info})
         for k, v in sorted(st.op_hist.items()):
             ctx.count("op_" + str(k), v)
-        ctx.count("family_%s_transitions" % label, st.transitions)
-        ctx.count("family_%s_states" % label, st.states)
+        if len(members) == 1:
+            sizes = {members[0][0]: (st.states, st.transitions, st.merged)}
+        else:
+            # the search is driven by the model alone, so the share of each family in the merged statistics is
+            # what a model-only ("dry") run of that family visits; the totals must agree with what was executed
+            if d0 < depth:
+                raise InfraError("a group of several families must be explored unmerged")
+            sizes = {}
+            for label, cfg in members:
+                dry = hist.explore(Sys, dict(cfg, dry=True), depth, d0)
+                sizes[label] = (dry.states, dry.transitions, dry.merged)
+            if not st.violations and not crashes and (
+                    sum(v[1] for v in sizes.values()) != st.transitions or
+                    sum(v[0] for v in sizes.values()) != st.states):
+                raise InfraError("family sizes %r do not add up to the executed %d transitions / %d states"
+                                 % (sizes, st.transitions, st.states))
+        for label, cfg in members:
+            n_states, n_trans, n_merged = sizes[label]
+            ctx.count("family_%s_transitions" % label, n_trans)
+            ctx.count("family_%s_states" % label, n_states)
+            own = cfg.get("depth", depth)
+            fams[label] = {"cfg": cfg, "depth": own, "unmerged_depth_d0": min(d0, own),
+                           "states": n_states, "transitions": n_trans, "merged_states_skipped": n_merged}
+            ctx.log("family %s: %d states, %d transitions" % (label, n_states, n_trans))
         for smp in st.samples[:2]:
-            ctx.sample({"family": label, "history": smp})
-        fams[label] = {"cfg": cfg, "depth": depth, "unmerged_depth_d0": d0, "states": st.states,
-                       "transitions": st.transitions, "merged_states_skipped": st.merged}
+            ctx.sample({"families": [l for l, _ in members], "history": smp})
         tot["states"] += st.states
         tot["transitions"] += st.transitions
         tot["merged"] += st.merged
         tot["closed"] += st.histories_closed
         tot["max_depth"] = max(tot["max_depth"], st.max_depth)
-        ctx.log("family %s: %d states, %d transitions" % (label, st.states, st.transitions))
-    # the `ending` family
-    nt_e, depth_e = (2, 5) if ctx.quick else (3, 6)
-    prefixes = ending_prefixes(nt_e, depth_e)
-    specs = [{"cfg": {"fam": "end", "nt": nt_e}, "history": h, "how": how} for h in prefixes for how in HOWS]
+    # collect the `ending` family
     n_end = 0
-    nz = max(1, min(8, len(specs) // 4))              # helper interpreters; each forks its cases one by one
-    chunks = [specs[i::nz] for i in range(nz)]
-    for chunk, r in pool.pmap(run_endings, [[c] for c in chunks], item_timeout=3000):
-        if isinstance(r, pool.WorkerError):
-            raise InfraError(r.tb)
-        if isinstance(r, pool.Crash):
-            raise InfraError("ending worker: %r" % (r,))
-        for spec, (bad, obs) in zip(chunk, r):
+    for chunk, proc in zip(chunks, procs):
+        for spec, (bad, obs) in zip(chunk, collect_endings(proc, chunk)):
             n_end += 1
             ctx.count("ending_" + spec["how"])
             if any(op[0] == "enter" for op in spec["history"]):
@@ -566,7 +628,8 @@ def run(ctx):
     ctx.log("family ending: %d shapes x %d ways" % (len(prefixes), len(HOWS)))
     if not ctx.samples:
         ctx.sample({"note": "see class_histogram"})
-    d0_base = fams["base"]["unmerged_depth_d0"]
+    d0_base = min(f["unmerged_depth_d0"] for f in fams.values()) if only and fams else (
+        fams["base"]["unmerged_depth_d0"] if fams else 0)
     cov = {
         "states": tot["states"] + n_end, "transitions": tot["transitions"] + n_end,
         "traces_validated_against_impl": tot["transitions"] + n_end,
@@ -579,10 +642,13 @@ def run(ctx):
         "rule": "a state is an operation history (merged by model key beyond the family's d0); every transition drives "
                 "real pthreads.  Families: base (spawn/call/ncall/exit/pycall/collect), extern (closure and extern "
                 "\"Python\" entry alternating), gstate (caller-owned PyGILState around the callback), park (threads "
-                "inside a callback while others run), all (union; thorough); ending = one fresh interpreter per "
-                "(model shape, way of ending), counted as one state and one transition each",
+                "inside a callback while others run), all (union; thorough); ending = one interpreter per "
+                "(model shape, way of ending) that stops without cleaning up, counted as one state and one "
+                "transition each",
         "initial_thread_states": base, "exhaustive": True,
     }
+    if only:
+        cov["only_families"] = only
     return ctx.finish(cov, ["operations are serialised (see level_note)",
                             "PyThreadState count read with ctypes.pythonapi under the GIL",
                             "a thread state made by the C caller's PyGILState_Ensure belongs to that caller: its "
